@@ -62,6 +62,7 @@ def network_spec(seed, idx_kind, base, order_seed):
                          p0=rnd.choice([0.1, 0.2, 0.15]), q0=rnd.choice([0.02, 0.05])))
     rest.append(dict(model="PQ", idx=(299 if idx_kind == "int" else "D9"), bus=bid(2), Vn=vb, p0=0.05, q0=0.01))   # two loads on one bus
     rest.append(dict(model="Shunt", idx=(300 if idx_kind in ("int", "mixed") else "H1"), bus=bid(n), Vn=vn, Sn=sn, b=0.05 * kz, g=0.0))
+    rest.append(dict(model="Shunt", idx=(301 if idx_kind in ("int", "mixed") else "H2"), bus=bid(n), Vn=vn, Sn=sn, b=0.03 * kz, g=0.01 * kz))   # two shunts on one bus
     rest.append(dict(model="Line", idx=(90 if idx_kind == "int" else "Loff"), bus1=bid(1), bus2=bid(n), Sn=sn, Vn1=vn, Vn2=vn,
                      r=0.01 / kz, x=0.1 / kz, u=0))                                                         # an offline branch
     random.Random(order_seed).shuffle(rest)
